@@ -1,43 +1,65 @@
-# to_sparse-wrong-result (family clear-and-refill): destination: find disagrees with membership in the set model
-salloc 0 33 33
-dalloc 0 33 33
-sins 0 23 8
-sins 0 16 10
-sins 0 30 21
-sclear 0
-dfree 0
-dalloc 0 33 33
-dload 0 1026 4 30 4 0 9 4 26 31 12 14 13 9 8 3 7 3 6 10 22 32 7 1 25 4 3 26 24 15 15 21 27 22 2 31 13 0 25 8 3 25 14 27 25 18 29 15 22 27 17 20 13 20 21 27 16 21 11 20 28 5 7 23 7 13 5 32 10 5 19 5 2 18 5 24 16 10 9 6 2 10 20 5 32 22 6 26 12 1 2 30 10 17 32 2 18 20 0 13 21 6 13 27 7 17 14 28 19 27 9 23 18 14 0 11 3 5 29 19 26 19 3 4 15 3 5 7 13 29 22 9 12 6 6 20 1 14 17 25 16 2 30 13 9 9 1 0 16 12 14 26 24 22 4 18 4 9 0 4 10 2 0 9 2 10 1 23 24 26 7 4 19 14 9 20 16 27 6 29 29 32 8 11 8 32 20 0 8 6 10 24 4 11 21 22 20 0 25 19 20 16 8 7 18 28 31 6 30 12 13 23 14 20 30 15 20 11 32 28 19 28 31 31 17 1 24 8 5 21 12 7 24 10 5 7 14 20 18 23 28 15 13 24 28 15 6 31 8 11 15 5 3 7 6 8 21 29 17 20 19 30 16 2 23 7 28 0 7 3 9 5 11 17 22 12 22 14 10 12 19 16 26 19 24 11 32 23 32 8 18 18 31 10 2 20 23 19 9 28 12 30 32 24 1 14 31 21 29 9 32 4 15 28 32 26 11 17 17 4 6 18 14 10 5 0 27 24 20 4 24 31 27 19 26 15 1 11 27 9 28 10 9 22 16 13 28 3 8 31 21 25 3 6 29 28 8 0 29 8 21 5 29 12 21 18 26 24 10 19 32 15 3 4 29 21 28 22 11 21 0 13 27 29 15 25 15 21 32 18 29 1 23 20 16 3 2 11 9 31 8 17 3 22 22 20 25 26 23 21 17 10 3 10 2 18 15 8 1 16 5 27 23 32 1 5 24 12 20 31 4 23 12 14 13 32 13 8 29 23 11 27 12 0 29 1 13 15 16 11 22 24 5 27 6 7 10 2 32 1 0 13 31 15 16 16 0 19 19 6 2 19 11 6 25 2 29 1 16 4 15 28 21 31 2 7 13 22 3 8 25 27 29 26 12 1 4 9 25 25 10 12 0 13 9 3 23 26 17 21 15 22 4 27 13 26 30 20 21 27 27 7 8 24 18 23 1 20 19 32 3 19 25 18 4 12 9 4 9 23 11 6 12 11 15 22 27 16 31 30 23 8 3 31 23 17 31 10 30 28 27 28 0 2 16 14 20 5 27 22 21 22 3 15 13 30 26 26 12 24 27 20 0 26 28 29 11 18 1 23 8 22 26 0 7 11 8 31 4 5 4 22 24 21 15 9 12 11 30 20 5 31 31 8 32 7 16 6 27 0 17 32 26 19 32 32 12 32 6 13 30 26 28 19 10 4 3 28 19 25 18 1 8 32 12 17 12 12 26 29 25 14 13 29 30 6 21 29 9 23 17 32 23 28 10 1 23 31 14 16 28 28 6 18 9 5 18 7 7 30 14 16 27 22 4 24 25 24 11 5 2 13 25 21 13 21 17 3 5 18 2 4 23 14 2 22 15 30 7 18 13 11 23 6 17 8 30 18 19 22 32 0 3 22 16 25 6 30 15 4 26 10 1 0 12 26 30 1 31 5 16 28 30 7 30 31 3 18 3 22 24 5 2 5 15 15 30 2 19 32 11 3 30 26 17 29 1 6 31 26 23 27 1 9 14 9 31 20 22 7 19 4 32 26 11 13 30 17 17 3 14 5 1 21 1 31 29 2 24 18 4 28 0 7 22 30 15 20 0 15 14 2 30 27 5 24 5 6 22 3 8 32 17 30 23 5 26 18 8 7 25 7 29 8 2 13 23 30 6 27 25 4 2 17 2 28 6 16 17 7 30 26 4 28 19 20 19 15 11 14 32 21 30 29 11 27 27 3 20 21 4 16 25 14 6 24 16 24 7 8 8 9 0 8 25 23 15 25 28 19 21 12 20 12 10 2 6 17 18 30 18 0 13 15 1 0 32 2 11 15 14 16 27 29 20 4 0 20 13 6 17 16 31 28 14 17 14 10 11 21 24 2 27 23 1 25 19 23 32 10 20 21 19 9 22 19 1 29 23 27 18 29 28 6 10 16 9 26 1 21 11 10 24 23 16 10 14 12 7 0 25 25 29 3 23 29 9 8 3 8 9 9 16 25 21 18 19 3 11 22 0 2 16 1 24 21 17 13 29 12 7 7 7 15 11 4 18 10 26 30 14 25 31 10 26 31 28 5 18 14 25 12 13 8 22 26 25 14 9 28 28 9 7 24 10 11 18 9 1 12 18 12 20 6 24 22 7 19 29 28 11 10 9 0 5 31 25 25 22 8 30 28 24 10 31 21 13 26 4 25 23 23 18 9 3 11 7 31 2 5 26 6 7 1 9 13 14 5 26 30 0 5 20 11 15 11 18 2 9 27 29 31 11 26 32 26 7 27 24 13 20 28 23 24 7 13 10 12 29 32 16 21 17 20 13 12 7 0 30 14 4 27 16 13 19 8 8 2 29 27 12 18 19 10 7 6 20 21 7 27 22 24 26 13 14 2 5 29 4 18 20 11 6 5 21 16 23 24 15 23 9 2 11 25 19 1 13 6 20 29 20 30 16 11 3 15 7 32 23 3 14 23 3 11 2 11 24 17 13 15 26 17 29 24 30 6 0 25 28 12 9 18 30 1 31 4 16 13 25 16 24 0 25 14 30 2 18 8 19 3 28 12 32 17 7 25 18 21 23 21 6 14 8 23 26 2 3 32 15 6 10 10 17 17 23 15 14 7 4 24 28 9 25 10 25 7 10 27 3 9 4 29 25 2 5 20 13 3 21 32 21 27 3 15 19 32 4 17 21 8 25 12 0 32 14 26 1 1 32 14 19 30 13 28 13 32 8 26 29 11 10 21 27 15 12 10 2 8 8 17 23 29 28 10 14 17 3 1 15 3 4 8 21 22 32 4 31 21 16 16 23 16 6 1 0 5 31 11 20 9 24 6 18 23 3 22 22 7 0 27 23 2 8 15 32 23 11 0 10 22 5 22 19 14 11 16 4 15 31 32 28 3 16 17 8 23 10 21 24 10 13 12 17 7 8 5 10 6 4 14 19 12 9 9 26 23 26 8 27 12 4 6 20 19 0 24 23 21 23 15 14 27 28 30 16 19 20 12 15 10 24 28 17 8 27 0 6 25 30 21 1 18 21 22 30 18 31 1 22 21 19 27 29 15 27 5 13 14 12 17 11 24 19 14 10 4 10 20 20 18 30 7 27 32 12 3 30 11 9 7 15 17 10 27 22 12 7 17 0 5 15 4 31 32 7 27 19 30 14 12 1 25 4 22 16 30 18 20 29 1 15 31 29 4 22 24 10 30 21 15 6 25 11 17 24 25 20 27 22 20 25 2 24 13 25 14 12 14 4 9 9 3 24 4 21 4 28 19 32 27 3 1 24 2 23 8 17 20 21 19 31 2 0 18 19 10 27 6 16 25 8 32 12 1 18 11 32 13 8 13 8 29 22 12 13 25 5 8 27 0 24 0 0 14 23 31 2 2 3 28 7 4 7 2 5 16 13 26 2 12 22 9 0 22 27 13 29 16 27 30 27 28 12 31 7 6 3 21 21 16 30 18 29 29 5 19 4 26 25 7 4 15 6 7 17 24 22 13 9 22 5 17 17 9 5 16 27 14 24 31 2 26 16 1 26 12 26 16 3 29 23 24 24 13 4 14 19 3 25 17 21 29 30 26 22 0 30 32 3 27 3 17 6 29 24 17 29 31 16 21 28 19 31 18 21 32 7 9 15 23 29 25 7 19 17 30 18 26 18 11 0 17 23 11 25 7 13 23 9 32 31 27 10 16 6 6 4 5 19 2 4 1 14 4 29 17 6 4 5 6 20 14 11 19 26 6 5 31 18 20 22 25 8 31 10 7 2 6 10 16 0 30 0 14 18 18 28 32 12 12 15 17 25 4 1 30 24 10 31 31 28 25 23 19 14 22 18 29 9 27 11 13 3 1 25 2 16 0 1 30 8 10 3 16 20 20 21 8 2 27 5 24 29 29 30 32 1 18 11 23 20 22 0 12 0 23 19 11 29 21 22 8 15 14 26 1 25 28 5 18 26 16 26 9 15 28 2 1 5 30 22 32 16 2 1 26 13 32 16 13 17 5 3 3 26 5 26 18 12 26 24 22 28 1 4 2 7 9 23 16 19 2 10 28 14 6 8 13 5 22 8 1 32 0 25 6 4 5 5 0 22 12 3 0 30 12 20 9 16 28 18 3 13 8 0 20 5 21 15 24 0 15 2 6 13 19 26 30 31 13 23 19 19 7 21 9 2 10 20 7 14 17 29 30 7 32 26 26 16 31 20 32 14 5 3 5 6 18 25 6 12 15 29 3 20 19 10 11 21 22 11 27 30 28 15 31 31 28 12 17 28 4 1 8 30 8 20 28 22 32 29 1 20 2 23 8 21 15 25 9 28 1 9 29 1 15 16 20 0 32 18 5 15 13 27 0 11 10 8 7 22 2 16 6 1 9 6 3 17 14 21 23 15 18 13 12 8 21 28 26 1 32 4 18
-d2s 0 0
-sins 0 10 32
-sins 0 11 2
-sdel 0 25 8
-sins 0 28 23
-sdel 0 4 28
-sins 0 5 17
-sins 0 24 14
-sins 0 19 0
-sclear 0
-sins 0 4 9
-sins 0 30 28
-sins 0 4 28
-sins 0 0 9
-sins 0 9 7
-sins 0 4 24
-sins 0 26 10
-sins 0 31 11
-sins 0 12 18
-sins 0 14 9
-sins 0 13 1
-sins 0 9 12
-sins 0 8 18
-sins 0 3 12
-sins 0 7 20
-sins 0 3 6
-sins 0 6 24
-sins 0 10 22
-sins 0 22 7
-sins 0 32 19
-sq 0 28 17
+# to_sparse-wrong-result (family random-fresh-destination): destination: find disagrees with membership in the set model
+salloc 3 1 3
+sq 3 0 0
+salloc 1 5 96
+sfree 3
+salloc 2 5 5
+sdel 2 1 3
+sfind 1 0 0
+sins 1 2 48
+sins 2 4 1
+sins 2 0 1
+sins 2 0 1
+sdel 1 2 54
+sins 1 1 48
+sins 1 2 14
+sdel 1 4 20
+sins 1 4 24
+sdel 1 4 56
+dalloc 2 5 96
+s2d 1 2
+dflip 2 4 68
+salloc 0 5 99
+d2s 2 0
+sins 0 3 90
+salloc 3 5 1
+scopycols 2 3 1 1
+dalloc 0 6 99
+s2d 0 0
+sdel 3 1 0
+sfree 2
+salloc 2 6 2
+scopycols 0 2 2 81 86
+sdel 2 5 0
+sfree 2
+salloc 2 5 2
+scopycols_opt 1 2 2 48 65
+sq 3 2 0
+sins 3 4 0
+sfind 1 4 86
+sins 1 0 46
+sfree 3
+sdel 0 3 91
+salloc 3 2 96
+scopyrows 1 3 2 3 3
+sfree 1
+salloc 1 1 96
+scopyrows 3 1 1 0
+sfree 1
+salloc 1 3 2
+scopycols 3 1 2 67 65
 sfree 0
+salloc 0 5 2
+scopycols 2 0 2 1 1
+sfind 0 3 1
+sins 3 1 13
+sins 0 0 0
+sins 2 0 0
+sins 2 2 0
+sdel 2 3 0
+sins 0 1 1
+sins 3 1 73
+sfree 2
+sfree 3
+sfree 1
 reset
